@@ -71,5 +71,7 @@ SEEDED = [
     ("C13-8", "C13-TRIM"),
     ("C13-9", "C13-GRID"),
     ("C13-11", "C13-ROWS"),
+    ("C13-12", "C13-GRID"),
+    ("C13-13", "C13-ODS"),
 ]
 MUTANTS = list(MUTANTS) + [_P("seed-" + sid, _os.path.join(_SEEDS, sid, "patch.diff"), rule) for sid, rule in SEEDED if _os.path.exists(_os.path.join(_SEEDS, sid, "patch.diff"))]
